@@ -94,7 +94,8 @@ theorem ackSeq_handleMsgs (ms : List Msg) (e : Ep) (hr : RxInv e) (hi : AckSeqIn
     unfold handleMsgs
     split
     · exact hi
-    · exact ih _ (rxInv_handleMsg e m hr) (ackSeq_handleMsg e m hr hi)
+    · have hr' : RxInv { e with rxMore := !ms.isEmpty || e.rx.dead } := rxInv_of_view (e := e) rfl hr
+      exact ih _ (rxInv_handleMsg _ m hr') (ackSeq_handleMsg _ m hr' (ackSeq_of_eq (e := e) rfl rfl hi))
 
 theorem ackSeq_recvRaw (e : Ep) (c : Bytes) (hr : RxInv e) (hi : AckSeqInv e) : AckSeqInv (recvRaw e c).1 := by
   unfold recvRaw
